@@ -144,6 +144,7 @@ def unit_sets(tier):
         from .c06 import A6
         yield "tree(A6,3)", list(B.tree(A6, 3, max_need=3)), cfgs[:1]
         yield "hand", hand_blocks(), cfgs[:2]
+        yield "split-rule-family", list(families.split_rule_family()), cfgs[:1] + cfgs[3:4] + cfgs[2:3]
     else:
         yield "tree(CORE,4)", list(B.tree(B.CORE, 4)), cfgs
         yield "tree(MIXED,3)", list(B.tree(B.MIXED, 3)), cfgs
@@ -152,6 +153,7 @@ def unit_sets(tier):
         from .c06 import A6
         yield "tree(A6,4)", list(B.tree(A6, 4, max_need=3)), cfgs[:2]
         yield "hand", hand_blocks(), cfgs
+        yield "split-rule-family", list(families.split_rule_family()), cfgs
 
 
 def main(tier, seed, only=None):
